@@ -27,6 +27,7 @@ EXPLANATION = (
     ' (G10) no row disappears because an equal row shares its batch (shared with C05-P1, duplicates).'
     ' (G11) a column option of a stage object is passed on to every callee with a parameter of that name (judged on the program as written); (G12) computed annotations are not shadowed by keys unpacked from the row.'
     ' (G13) the carbon count behind the carbon label tests every atom by element; a substructure query counts only by atomic number (shared with C07-E13).'
+    " (G14) 'Balance' only under key-set and value equality, compare_dicts the only producer (shared with C01-R4). (G15) the validator decomposes the fields it refreshes, for the rows it labels (shared with C01-R2). (G16) every stage constructor parameter named like a column setting of the Balancer, and read by the stage, is bound where the Balancer builds the stage."
 )
 ASSUMPTIONS = [
     "the tool's balance verdict is the reference (its coincidence with an independent verdict is C07 behaviour, not decided)",
